@@ -71,7 +71,11 @@ def World.withReg (w : World K) (f : (List (K × K × K) → K × K) → Reg K) 
   let r' := f regf
   if r'.nReg != w.rh.reg.nReg then
     let dev := match h? with
-      | some h => maxK (absK (h.1 - r'.lastOwn.1)) (absK (h.2 - r'.lastOwn.2))
+      | some h =>
+        -- the two fits are compared at the newest point and by slope; the normal equations lose
+        -- digits in proportion to the blow index, so the difference is scaled by 1 + |x|/1000
+        (maxK (absK ((h.1 + h.2 * r'.lastX) - (r'.lastOwn.1 + r'.lastOwn.2 * r'.lastX)))
+              (absK (h.2 - r'.lastOwn.2))) / (Num.ofNat 1 + absK r'.lastX / Num.ofNat 1000)
       | none => W0
     { w with rh := { w.rh with reg := r' }, tape := w.tape.tail, maxDev := maxK w.maxDev dev }
   else { w with rh := { w.rh with reg := r' } }
